@@ -7,7 +7,7 @@ from ..valgen import Gen, copy_value
 from ..condgen import CondGen
 from ..rulegen import RuleGen
 from ..terms import valida, Leaf
-from ..pathterms import PathT, Prim
+from ..pathterms import PathT, Prim, ListT
 from ..ruleterms import RuleT
 from . import schema_common as sc
 
@@ -115,6 +115,16 @@ def run(tier, seed, model_ok, spec_ok, replay=None):
     # rules whose concrete paths are equal as tuples / hash-equal but of different types must not share anything
     for doc, paths in HASH_EQUAL:
         rts = [RuleT(PathT([Prim(x) for x in p]), Leaf("Value", "is_instance", [int]), []) for p in paths]
+        perms = list(itertools.permutations(range(len(rts))))
+        for perm in perms:
+            c = sc.make_case([rts[i] for i in perm], copy_value(doc))
+            if c:
+                cases.append(c)
+        direct.extend(direct_checks(rts, perms, doc))
+        nperm += len(perms)
+    # rules that compare == yet judge differently (range bounds 0 / 0.0: known finding D22 of C14) are still two rules: each is judged on its own
+    for doc, bounds in (({"a": [1, 2, 9], "b": 3}, [(0, 5), (0.0, 5)]), ({"a": [1, 2, 9]}, [(0.0, 5), (0, 5), (0, 5.0)])):
+        rts = [RuleT(PathT([Prim("a"), ListT()]), Leaf("Value", "in_range", [lo, hi]), []) for lo, hi in bounds]
         perms = list(itertools.permutations(range(len(rts))))
         for perm in perms:
             c = sc.make_case([rts[i] for i in perm], copy_value(doc))
